@@ -573,17 +573,30 @@ class Conj:
                 return f"{e['method']}({mm})"
         return f"{e['method']}({', '.join(args)})"
 
-    def of(self, e, env):
+    def of(self, e, env, defs=None):
+        """defs: let-bound locals of the arm body -> (initialiser, environment at the let), so that a conjunct may be
+        named before it is used (`let x = <cond>; y && x`)"""
         cx = self.cx
+        defs = defs or {}
         k = e.get("k")
         if k in ("paren", "group"):
-            return self.of(e["e"], env)
+            return self.of(e["e"], env, defs)
+        if k == "path" and e["path"] in defs:
+            init, ienv, idefs = defs[e["path"]]
+            return self.of(init, ienv, idefs)
         if k == "block":
             env2 = dict(env)
+            defs2 = dict(defs)
             tail = None
             res = set()
             for s in e["stmts"]:
                 if s.get("k") == "let":
+                    if s["pat"].get("k") == "p_ident" and not s["pat"].get("mut") and s.get("init") is not None:
+                        defs2[s["pat"]["name"]] = (s["init"], dict(env2), dict(defs2))
+                    else:
+                        for b in synq.walk(s["pat"]):
+                            if b.get("k") == "p_ident":
+                                defs2.pop(b["name"], None)
                     bind_let(s, env2, cx)
                 elif s.get("k") == "expr_stmt":
                     if not s.get("semi"):
@@ -598,11 +611,11 @@ class Conj:
                     continue
             if tail is None:
                 return res | {"?no value"}
-            return res | self.of(tail, env2)
+            return res | self.of(tail, env2, defs2)
         if k == "return" and e.get("e"):
-            return self.of(e["e"], env)
+            return self.of(e["e"], env, defs)
         if k == "binary" and e["op"] == "&&":
-            return self.of(e["l"], env) | self.of(e["r"], env)
+            return self.of(e["l"], env, defs) | self.of(e["r"], env, defs)
         if k == "bool":
             return {"true" if e["v"] else "false"}
         if k == "macro" and short(e["name"]) in DIVERGE_MACROS:
@@ -617,7 +630,11 @@ class Conj:
             cl = e["args"][0]
             env2 = dict(env)
             bind(cl["params"][0], itelem(e["recv"], env, cx), env2)
-            return self.of(cl["body"], env2)
+            defs2 = dict(defs)
+            for b in synq.walk(cl["params"][0]):
+                if b.get("k") == "p_ident":
+                    defs2.pop(b["name"], None)
+            return self.of(cl["body"], env2, defs2)
         if k == "mcall" and sym(e["recv"], env, cx) == "self":
             return {self.call(e, env)}
         if k == "match":
@@ -1053,13 +1070,13 @@ def r2_type_id_info(rep, orc):
             for c in calls:
                 args = [a for a in c.args if a != "$resolve"]
                 canon.setdefault(f"{c.name}({', '.join(args)})", []).append(c)
-            merged_rhs = [strip_transparent(e.rhs_node) for kd, _, e in ws if kd in ("set", "or")]
+            merged_rhs = {e.rhs for kd, _, e in ws if kd in ("set", "or")}   # symbolic: a let-bound call result counts
             missing, unmerged = [], []
             for alts in exp_alts:
                 hit = [c for a in alts for c in canon.get(a, [])]
                 if not hit:
                     missing.append(sorted(pretty(a, f"{kscr}<{K}>") for a in alts)[0])
-                elif not any(any(c.node is r for r in merged_rhs) for c in hit):
+                elif not any(f"self.{c.name}({', '.join(c.args)})" in merged_rhs for c in hit):
                     unmerged.append(sorted(pretty(a, f"{kscr}<{K}>") for a in alts)[0])
                 # a component that is an element of a collection must be visited for every element
             allowed = set().union(*exp_alts) if exp_alts else set()
@@ -1086,6 +1103,9 @@ def r2_type_id_info(rep, orc):
     ins = [e for e in evs if e.kind == "call" and e.name == "insert" and e.recv == "self.type_info"]
     rep.ob(R, "type_id_info: the computed info is stored under the analysed id",
            len(ins) >= 1 and all(e.args == [A, acc] for e in ins), f"{[e.args for e in ins]}", fn.loc())
+    rep.ob(R, "type_id_info: the info is stored only after the kind table has filled it in",
+           len(ins) >= 1 and all(order_key(e.node) > order_key(table) and not any(n is e.node for n in synq.walk(table))
+                                 for e in ins), "insert precedes / sits inside the table", fn.loc())
     tail = [s for s in fn.body["stmts"] if s.get("k") == "expr_stmt" and not s.get("semi")]
     rep.ob(R, "type_id_info: returns the computed info", bool(tail) and sym(tail[-1]["e"], env, cx) == acc,
            f"{sym(tail[-1]['e'], env, cx) if tail else None}", fn.loc())
@@ -1179,6 +1199,13 @@ def r2_bitor(rep):
              not (e.kind == "opassign" and e.op == "|=" and (e.lhs, e.rhs) in ors and e.lhs.startswith("self.") and
                   e.rhs == "$rhs." + e.lhs[5:])]
     rep.floor(R, "TypeInfo fields", len(fields), 8)
+    attrs = " ".join(a for it in synq.items_of(T, ("struct_def",)) if it["name"] == "TypeInfo" for a in it.get("attrs", []))
+    manual = [i for i in synq.load(T)["items"] if i.get("k") == "impl" and synq.base_name(i.get("trait") or "") == "Default"
+              and synq.base_name(i["self_ty"]) == "TypeInfo"]
+    rep.ob(R, "TypeInfo::default() has every flag cleared (derived Default over bool fields)",
+           re.search(r"derive\s*\([^)]*\bDefault\b", attrs) is not None and not manual and
+           all(f["ty"] == "bool" for it in synq.items_of(T, ("struct_def",)) if it["name"] == "TypeInfo" for f in it["fields"]),
+           f"attrs: {attrs}; manual impls: {len(manual)}", T)
     for f in fields:
         rep.ob(R, f"TypeInfo |= : field {f} is OR-ed with the other side's {f}", (f"self.{f}", f"$rhs.{f}") in ors,
                "no `self.%s |= rhs.%s`" % (f, f), fn.loc())
@@ -1257,6 +1284,14 @@ def r3_func(rep):
     rep.ob(R, "type_info_func: borrowed is written only for import parameters", not bad, f"{bad}", fn.loc())
     bad = [f"{k}.{f}" for k, f, e in flagw if f == "owned" and not any(e is w[2] for w in o_exp + o_res)]
     rep.ob(R, "type_info_func: owned is written only for export parameters and results", not bad, f"{bad}", fn.loc())
+    late = []
+    for L, what in ((LP, "parameter"), (LR, "result")):
+        for l in L:
+            fill = [order_key(e.node) for e in adds if e.recv == l]
+            reads = [order_key(e.node) for k_, f_, e in flagw if k_ == l + "[]"]
+            if fill and reads and not max(fill) < min(reads):
+                late.append(what)
+    rep.ob(R, "type_info_func: a set of reachable types is complete before its members are flagged", not late, f"{late}", fn.loc())
     bad = [f"{k}.{f}" for k, f, e in flagw if f not in ("borrowed", "owned", "error")]
     rep.ob(R, "type_info_func: writes only usage flags (borrowed, owned, error)", not bad, f"{bad}", fn.loc())
     # error case
@@ -1338,7 +1373,7 @@ def r3_collect(rep):
     rep.ob(R, "collect_equal_types: the info of every type is OR-ed (|=) into its class representative's entry",
            len(good) >= 1 and len(good) == len(merges),
            "; ".join(f"{e.lhs} {getattr(e, 'op', '=')} {e.rhs}" for e in merges), fn.loc(merges[0].node) if merges else fn.loc())
-    M = good[0].lhs.split(".entry(")[0] if good else "?"
+    M = merges[0].lhs.split(".entry(")[0].lstrip("*") if merges else "?"
     clobber = [e for e in evs if e.kind == "call" and e.recv == M and e.name in ("insert", "remove", "clear", "retain")]
     rep.ob(R, "collect_equal_types: merged class info is never overwritten or dropped", not clobber,
            f"{[e.name for e in clobber]}", fn.loc())
@@ -1384,6 +1419,19 @@ def r3_unionfind(rep):
     rec = [e for e in ev2 if e.kind == "call" and e.name == "find" and e.recv == "self"]
     rep.ob(R, "UnionFind::find follows the parent link of the id (or the id itself when it has none)",
            bool(rec) and all(e.args == [parent] for e in rec), f"{[e.args for e in rec]}", f2.loc())
+    val = sym(f2.body, env2, Ctx())
+    root = f"self.find({parent})"
+    forms = {f"if(({x} != {y})){{{root}|{A}}}" for x, y in ((parent, A), (A, parent))} | \
+            {f"if(({x} == {y})){{{A}|{root}}}" for x, y in ((parent, A), (A, parent))}
+    rep.ob(R, "UnionFind::find yields the root of the parent chain, or the id itself when it is a root", val in forms,
+           f"yields {val}", f2.loc())
+    g1 = getfn(rep, "get_representative_type")
+    v1 = sym(g1.body, fn_env(g1, {"TypeId": [A]}), Ctx())
+    rep.ob(R, "Types::get_representative_type yields the class root of the id", v1 == f"self.equal_types.find({A})",
+           f"yields {v1}", g1.loc())
+    g2 = getfn(rep, "get")
+    v2 = sym(g2.body, fn_env(g2, {"TypeId": [A]}), Ctx())
+    rep.ob(R, "Types::get yields the stored info of the id", v2 == f"self.type_info[{A}]", f"yields {v2}", g2.loc())
     ins = [e for e in ev2 if e.kind == "call" and e.name == "insert" and e.recv == "self.parent"]
     bad = [e.args for e in ins if e.args != [A, f"self.find({parent})"]]
     rep.ob(R, "UnionFind::find compresses a path only to the root it found", not bad, f"{bad}", f2.loc(), nontrivial=bool(ins))
@@ -1466,6 +1514,15 @@ def r4_users(rep):
         ok = any(pol is False and (f"({rp} == {A})" in c or f"({A} == {rp})" in c) for c, pol in conds)
         rep.ob(R, "rust define_type: the alias is printed only when the representative is a different type", ok, f"{conds}",
                fn.loc(e.node))
+    gp = synq.find_fn(RUST_IF, "generate_payload", self_ty="InterfaceGenerator")
+    rep.saw(f"{RUST_IF}::InterfaceGenerator::generate_payload")
+    genv = fn_env(gp, {"Option<&Type>": ["$payload"]})
+    gevs = events(gp.body, genv, Ctx())
+    keys = [e for e in gevs if e.kind == "call" and e.name == "contains_key"]
+    rep.floor(R, "payload dedup lookups in generate_payload", len(keys), 1)
+    rep.ob(R, "rust generate_payload: future/stream payload impls are de-duplicated by the class representative of the payload id",
+           bool(keys) and all(".get_representative_type($payload<Some>.0<Id>.0)" in e.args[0] for e in keys),
+           f"{[e.args[0][:160] for e in keys]}", gp.loc())
     full = [e for e in evs if e.kind == "call" and e.name == "define_type" and e.recv is None]
     rep.ob(R, "rust define_type: a representative (or unmerged) type gets its full definition",
            any(e.args[-1] == A and any(c[0] == "if" and c[3] is True for c in e.ctx) for e in full), f"{[e.args for e in full]}",
